@@ -130,7 +130,26 @@ func c10Programs(c *Check) []*Program {
 		For{Kind: ForCond, Cond: cmp("<", vr("w"), il(3)), Body: []Stmt{IncDec{"w", true}, ifs(cmp("==", vr("w"), il(2)), Continue{}), pr(vr("w"))}},
 		VarDecl{Names: []string{"grown"}, Type: TSliceBool}, SliceSet{"grown", il(2), bl(true)}, pr(Len{vr("grown")}, Index{"grown", il(0)}, Index{"grown", il(2)}),
 	})
-	progs := []*Program{p1, p2}
+	p3 := SingleFile([]Stmt{
+		fn("countc", []Param{{"text", TString}, {"want", TString}}, []Type{TInt},
+			def("hits", il(0)),
+			For{Kind: ForRange, RangeIdx: "pos", RangeVal: "ch", Over: vr("text"), Body: []Stmt{ifs(cmp("==", vr("ch"), vr("want")), IncDec{"hits", true})}},
+			ret(vr("hits"))),
+		fn("report", []Param{{"text", TString}}, []Type{TString},
+			def("hits", call("countc", vr("text"), sl("a"))),
+			def("more", call("countc", vr("text"), sl("b"))),
+			def("limit", il(6)),
+			For{Kind: ForRange, RangeIdx: "pos", RangeVal: "ch", Over: vr("text"), Body: []Stmt{IncDec{"limit", false}, ifs(cmp("==", vr("ch"), sl("z")), IncDec{"limit", true})}},
+			ret(bin("+", bin("+", bin("+", Itoa{vr("hits")}, sl("/")), Itoa{vr("more")}), bin("+", sl("/"), Itoa{vr("limit")})))),
+		def("text", sl("abcabca")),
+		def("hits", il(100)),
+		pr(call("report", vr("text")), vr("hits"), call("countc", vr("text"), sl("c"))),
+		def("names", SliceLit{TString, []Expr{sl("x"), sl("y"), sl("z"), sl("w")}}),
+		def("limit", il(10)),
+		For{Kind: ForRange, RangeIdx: "pos", RangeVal: "name", Over: vr("names"), Body: []Stmt{IncDec{"limit", false}, pr(vr("pos"), vr("name"))}},
+		pr(sl("left"), vr("limit"), vr("hits")),
+	})
+	progs := []*Program{p1, p2, p3}
 	n := c.Pick(2, 30)
 	for i := 0; i < n; i++ {
 		cfg := genConfigs[[]string{"c02", "c03"}[i%2]]
@@ -152,6 +171,9 @@ func c10Programs(c *Check) []*Program {
 var identRe = regexp.MustCompile(`[A-Za-z_][A-Za-z0-9_]*`)
 
 func nameClass(n string, origin string) string {
+	if origin == "near-miss" {
+		return "near-miss"
+	}
 	switch {
 	case regexp.MustCompile(`^_h\d+$`).MatchString(n):
 		return "temporary"
@@ -232,6 +254,31 @@ func checkC10(c *Check) {
 	for _, w := range []string{"fresh_name_a", "Zq7", "another_fresh_1", "veryUnlikelyName42", "q_q", "x9y8", "Abc_def", "k0"} {
 		harvest[w] = "fresh-control"
 	}
+	// near misses of the compiler-owned spellings: a prefix, a suffix, a neighbouring name. They are ordinary user
+	// names today; a back-end that starts to depend on a prefix or pattern turns them into captures.
+	perClass := map[string]int{}
+	hk := []string{}
+	for n := range harvest {
+		hk = append(hk, n)
+	}
+	sort.Strings(hk)
+	for _, n := range hk {
+		origin := harvest[n]
+		cl := nameClass(n, origin)
+		if cl == "temporary" || cl == "register" || cl == "mangled-local" || cl == "underscore-internal" || cl == "helper-routine" {
+			perClass[cl]++
+			if !c.Thorough() && perClass[cl] > 4 {
+				continue
+			}
+			for _, nm := range []string{n + "x", n + "_", n + "0x", strings.TrimRight(n, "0123456789") + "its", "x" + n, strings.ToUpper(n[:1]) + n[1:] + "q"} {
+				if identRe.FindString(nm) == nm {
+					if _, ok := harvest[nm]; !ok {
+						harvest[nm] = "near-miss"
+					}
+				}
+			}
+		}
+	}
 	names := []string{}
 	for n := range harvest {
 		if !reservedWords[n] {
@@ -257,11 +304,30 @@ func checkC10(c *Check) {
 				if b.own[to] {
 					continue
 				}
-				if !c.Thorough() && bi >= 2 && ni%7 != bi%7 {
+				if !c.Thorough() && bi >= 3 && ni%7 != bi%7 {
 					continue // quick tier: generated programs visit a seventh of the names each
 				}
 				from := cands[(ni+bi)%len(cands)]
 				cl := nameClass(to, harvest[to])
+				if harvest[to] == "near-miss" {
+					cl = "near-miss"
+				}
+				// a harvested word that contains one of the program's identifiers is derived from user names
+				// (e.g. a hidden <index>_len): every identifier of the role is renamed to it, not just one
+				derived := false
+				for o := range b.own {
+					if len(o) >= 2 && strings.Contains(to, o) && to != o && harvest[to] != "fresh-control" {
+						derived = true
+					}
+				}
+				if derived || cl == "near-miss" {
+					for _, f2 := range cands {
+						if f2 != from {
+							classCount[cl+"(all-candidates)"]++
+							jobs = append(jobs, job{bi, role, f2, to, cl})
+						}
+					}
+				}
 				for o := range b.own {
 					if o != from && strings.EqualFold(o, to) {
 						cl = "case-variant" // the target differs from another identifier of the program only in letter case
@@ -297,6 +363,19 @@ func checkC10(c *Check) {
 				}
 			}
 		}
+	}
+	// one job per (program, from, to)
+	{
+		seen := map[string]bool{}
+		uniq := jobs[:0]
+		for _, j := range jobs {
+			k := fmt.Sprintf("%d/%s/%s", j.bi, j.from, j.to)
+			if !seen[k] {
+				seen[k] = true
+				uniq = append(uniq, j)
+			}
+		}
+		jobs = uniq
 	}
 	c.Extra["renamings_per_class"] = classCount
 	parallelDo(len(jobs), 16, func(i int) {
